@@ -1,7 +1,7 @@
 (* CorrDefs/CorrC18.v — what one generated C18 case looks like inside Coq, and the checks run on it. *)
 From SPV Require Export Base.Corr Model.Replace Model.ReplaceSpec Gen.FactsReplace.
 
-Record case := mkcase {
+Record rcase := mkcase {
   c_obj : value;                 (* the instance handed to replace (as it was before the call) *)
   c_cd : option dict;            (* the `changes_dict` argument exactly as passed (None = not passed) *)
   c_kw : dict;                   (* the keyword arguments exactly as passed *)
@@ -16,19 +16,19 @@ Record case := mkcase {
 
 Definition dict_eqb (a b : dict) : bool := value_eqb (VDict a) (VDict b).
 
-Definition effective (c : case) : dict :=
+Definition effective (c : rcase) : dict :=
   match c.(c_cd) with Some (x :: r) => x :: r | _ => c.(c_kw) end.
 
-Definition in_scope (c : case) : bool :=
+Definition r_in_scope (c : rcase) : bool :=
   wf_obj c.(c_obj) && match c.(c_abs) with Some a => deep_nf a | None => true end.
 
-Definition model_ok (c : case) : bool :=
+Definition r_model_ok (c : rcase) : bool :=
   res_eqb value_eqb (replace_call_gen c.(c_obj) c.(c_cd) c.(c_kw)) c.(c_obs)
   && res_eqb dict_eqb (unflatten_split_gen (effective c)) c.(c_unflat)
   && match c.(c_abs), c.(c_flat) with Some a, Some f => dict_eqb (flatten_join_gen a) f | _, _ => true end
   && match c.(c_abs), c.(c_ref) with Some a, Some r => res_eqb value_eqb (levelwise c.(c_obj) a) r | _, _ => true end.
 
-Definition spec_ok (c : case) : bool :=
+Definition r_spec_ok (c : rcase) : bool :=
   c.(c_input_unchanged)
   && match c.(c_obs) with Ok _ => c.(c_same_type) | Err _ => true end
   && match c.(c_abs) with
@@ -37,3 +37,40 @@ Definition spec_ok (c : case) : bool :=
          frame_check c.(c_obj) a c.(c_obs)
          && match c.(c_ref) with Some r => res_agree c.(c_obs) r | None => true end
      end.
+
+(* ---------- replace_subgroups cases ---------- *)
+Record scase := mkscase {
+  s_tables : tables;                       (* OBSERVED static facts: per (class, field) and per class, see Model/Replace.v *)
+  s_obj : value;                           (* the instance (as it was before the call) *)
+  s_sel : option sdict;                    (* the selections exactly as passed (None = None) *)
+  s_abs : option (list (path * choice));   (* the abstract selections (shallowest first) the passed form renders; None = malformed *)
+  s_obs : res value;                       (* OBSERVED result *)
+  s_input_unchanged : bool;                (* OBSERVED: obj equals its deep copy taken before the call *)
+  s_unflat : sdict                         (* OBSERVED: _unflatten_selection_dict(selections, "__key__", recursive=False) *)
+}.
+
+Fixpoint sel_eqb (a b : sel) : bool :=
+  match a, b with
+  | SKey x, SKey y => String.eqb x y
+  | SType x, SType y => String.eqb x y
+  | SInst x, SInst y => value_eqb x y
+  | SNone, SNone | SOther, SOther => true
+  | SDict d1, SDict d2 => all2 (fun x y => String.eqb (fst x) (fst y) && sel_eqb (snd x) (snd y)) d1 d2
+  | _, _ => false
+  end.
+Definition sdict_eqb (a b : sdict) : bool := sel_eqb (SDict a) (SDict b).
+
+Definition FUEL : nat := 64.   (* selection paths are at most 4 long; every recursive call consumes one *)
+
+Definition s_in_scope (c : scase) : bool := wf_obj c.(s_obj).
+Definition s_model_ok (c : scase) : bool :=
+  res_eqb value_eqb (rsub_gen c.(s_tables) FUEL c.(s_obj) c.(s_sel)) c.(s_obs)
+  && match c.(s_sel) with Some d => sdict_eqb (unflatten_selection_gen d) c.(s_unflat) | None => true end.
+Definition s_spec_ok (c : scase) : bool :=
+  c.(s_input_unchanged)
+  && match c.(s_abs) with Some a => sub_check c.(s_tables) a c.(s_obj) c.(s_obs) | None => true end.
+
+Inductive case := CRep (c : rcase) | CSub (c : scase).
+Definition in_scope (c : case) : bool := match c with CRep r => r_in_scope r | CSub s => s_in_scope s end.
+Definition model_ok (c : case) : bool := match c with CRep r => r_model_ok r | CSub s => s_model_ok s end.
+Definition spec_ok (c : case) : bool := match c with CRep r => r_spec_ok r | CSub s => s_spec_ok s end.
